@@ -182,7 +182,7 @@ type vf5Op struct {
 // parse an op token; identifiers c/s/p are resolved against lastReqID now
 func (r *vf5Run) resolve(op string) (vf5Op, bool) {
 	switch op {
-	case "U", "D", "O", "C", "T":
+	case "U", "D", "O", "C", "T", "R", "K":
 		return vf5Op{kind: op}, true
 	}
 	if len(op) < 2 || op[0] != 'I' {
@@ -238,6 +238,10 @@ func (r *vf5Run) apply(o vf5Op) {
 		f.stopTimer()
 		f.mu.Unlock()
 		f.Timeout()
+	case "R":
+		f.Restore()
+	case "K":
+		f.Kill()
 	case "I":
 		f.Input(o.code, o.id, o.data)
 	}
